@@ -60,6 +60,9 @@ def main(argv):
                    solver_result=v[0], solver_output=v[3][:3000])
         violations.append(rec)
     os.makedirs(os.path.join(OUT, 'replays', pid), exist_ok=True)
+    for old_f in os.listdir(os.path.join(OUT, 'replays', pid)):       # replay files of earlier runs are not evidence of this one
+        if old_f.startswith('violation_'):
+            os.remove(os.path.join(OUT, 'replays', pid, old_f))
     lines = []
     # native differential replay (bounded): the real builder, generated vs generic class of the same declaration,
     # seeded random inputs; one search per distinct declaration
